@@ -1,5 +1,6 @@
 import Got.Model.Ants
 import Got.Lemmas.AntsQueues
+import Got.Lemmas.AntsLive
 /-
 C07 — ants: every accepted task completes once with a result matching its attempts.
 Model: Got.Model.Ants (timed LTS of pool.go, pool_impl.go, task_callback_ants.go, task_option.go,
@@ -10,7 +11,19 @@ task_discard.go).  All theorems quantify over every reachable state of the curre
 (`decided = 1`, possible only after its ctx check saw the context not done: `sawLive`), or
 (nil, DeadlineExceeded) if the dispatcher won it (`decided = 2`).  The flag is a single word that
 is written only by a successful CAS from 0, so exactly one side decides each attempt.
-Not proved (liveness): "at quiescence the number of handler invocations equals the number of attempts".
+Liveness at quiescence (`C07_quiescent_invocations`, `C07_invoked_between_1_and_R`): `Quiescent c s`
+(Got.Model.AntsLive) = no internal transition of the model is enabled (internal = everything except a client calling
+Send, a handler returning, and the clock: i.e. the rest of Send, all dispatcher and inner-worker steps including
+entering the handler, and the firing of a due context timer) and no handler call is in progress.  In every reachable
+quiescent state the handler has been invoked exactly once for each attempt begun, so a finished accepted task's
+handler ran between 1 and R times; moreover (`C07_quiescent_shape`) both channels are empty, all inner workers are
+free, no context timer is armed and every task handed to Send is done or discarded.  `idle` is the executable form of
+`Quiescent` (`C07_quiescent_decidable`).  Quiescence is inevitable once Sends stop and handlers return: the number of
+non-clock transitions of any Send-free run is bounded (`C07_bounded_work`) and a non-quiescent state is never stuck
+(`C07_progress`); from every reachable state a quiescent one is reachable without further Sends
+(`C07_quiescence_reachable`).  Scope of the statement: like the whole model it assumes the pool is not
+finalized while tasks are in flight (the model has no transition closing `closeChan`); what the real code does when
+it is, is recorded in DESIGN.md.
 -/
 open Got.Model.Ants
 
@@ -119,6 +132,100 @@ theorem C07_model_guards_redundant (c : Cfg) (hc : c.old = false) (s : State) (h
   · intro k rest e; exact hq.tq k (by rw [e]; simp)
   · intro k a rest e; exact hq.iq k a (by rw [e]; simp)
 
+/-! ### liveness at quiescence -/
+
+/-- at quiescence (no goroutine of the pool can take a step, no due timer, every started handler has returned) the
+    handler has been invoked exactly once for every attempt that was begun: invocations = attempts, for every task. -/
+theorem C07_quiescent_invocations (c : Cfg) (hc : c.old = false) (s : State) (hr : Reachable c s)
+    (hq : Quiescent c s) (k : Nat) :
+    (s.task k).inv = (s.task k).att ∧ ∀ a, a < (s.task k).att → ((s.task k).at_ a).starts = 1 :=
+  quiescent_inv_eq_att (live_reachable hc hr) hq k
+
+/-- the property as stated: once the pool has nothing left to do, the handler of a task accepted by Send (finished,
+    not discarded) has been invoked between 1 and R times (R = the effective retry count). -/
+theorem C07_invoked_between_1_and_R (c : Cfg) (hc : c.old = false) (s : State) (hr : Reachable c s)
+    (hq : Quiescent c s) (k : Nat) (hd : (s.task k).pc = .done) :
+    1 ≤ (s.task k).inv ∧ (s.task k).inv ≤ (s.task k).R := by
+  have h := (C07_quiescent_invocations c hc s hr hq k).1
+  have ha := C07_attempts c hc s hr k
+  rw [h]
+  exact ⟨ha.2.2.2.1 hd, ha.2.1⟩
+
+/-- what "nothing left to do" amounts to: both channels empty, every inner worker free, no handler running, every
+    task handed to Send finished (or, in a pool of size 0 — which NewPool never builds — blocked in the enqueue),
+    every attempt's closure has closed its doneChan and no context timer is armed. So the definition of `Quiescent`
+    needs no separate clause about timers, and letting time pass cannot enable anything. -/
+theorem C07_quiescent_shape (c : Cfg) (hc : c.old = false) (s : State) (hr : Reachable c s) (hq : Quiescent c s) :
+    s.taskQ = [] ∧ s.innerQ = [] ∧ (∀ w, s.slot w = none) ∧ s.running = 0 ∧ dispatching s = 0 ∧
+    (∀ k, (s.task k).pc = .none ∨ (s.task k).pc = .discarded ∨ (s.task k).pc = .done ∨
+          ((s.task k).pc = .enq ∧ c.N = 0)) ∧
+    (∀ k a, a < (s.task k).att → ((s.task k).at_ a).pc = .closed ∧ ((s.task k).at_ a).ctxDone = true) ∧
+    armedTimer s = false := by
+  have hL := live_reachable hc hr
+  refine ⟨quiescent_taskQ hL hq, quiescent_innerQ hL hq, quiescent_slots_free hL hq, quiescent_running hL hq,
+    quiescent_dispatching hL hq, quiescent_tasks hL hq,
+    fun k a ha => ⟨quiescent_closed hL hq k a ha, quiescent_timers hL hq k a ha⟩, ?_⟩
+  cases h : armedTimer s
+  · rfl
+  · simp only [armedTimer, List.any_eq_true, List.mem_range] at h
+    obtain ⟨k, _, a, ha, hx⟩ := h
+    rw [quiescent_timers hL hq k a ha] at hx
+    cases hx
+
+/-- `Quiescent` is decidable on reachable states: the executable `idle` (a scan of the finitely many candidate
+    transitions of the tasks handed to Send so far) computes it. -/
+theorem C07_quiescent_decidable (c : Cfg) (hc : c.old = false) (s : State) (hr : Reachable c s) :
+    Quiescent c s ↔ idle c s = true :=
+  let hL := live_reachable hc hr
+  quiescent_iff_idle hL.inv hL.supp
+
+/-- where an attempt without handler invocation is, in EVERY reachable state: its closure has not been submitted yet
+    and its dispatcher stands before the send into innerCallbackChan; or it is inside innerCallbackChan; or an inner
+    worker w < N holds it and is about to call the handler. -/
+theorem C07_uninvoked_located (c : Cfg) (hc : c.old = false) (s : State) (hr : Reachable c s) (k a : Nat)
+    (ha : a < (s.task k).att) (h0 : ((s.task k).at_ a).starts = 0) :
+    (((s.task k).at_ a).pc = .none ∧ (s.task k).pc = .sendCl ∧ a + 1 = (s.task k).att) ∨
+    (((s.task k).at_ a).pc = .queued ∧ (k, a) ∈ s.innerQ) ∨
+    (∃ w, ((s.task k).at_ a).pc = .taken w ∧ s.slot w = some (k, a) ∧ w < c.N) :=
+  uninvoked_located (live_reachable hc hr) k a ha h0
+
+/-- progress: as long as some begun attempt of some task has no handler invocation yet, the pool is not stuck — some
+    internal transition is enabled, or a handler is still running (whose return is the environment's move). -/
+theorem C07_progress (c : Cfg) (hc : c.old = false) (s : State) (hr : Reachable c s) (k : Nat)
+    (h : (s.task k).inv < (s.task k).att) :
+    (∃ act, act.internal = true ∧ (step c s act).isSome = true) ∨
+    (∃ k' a w hon, ((s.task k').at_ a).pc = .running w hon) := by
+  apply Classical.byContradiction
+  intro hn
+  have hq : Quiescent c s := by
+    constructor
+    · intro act hi
+      cases hs : step c s act with
+      | none => rfl
+      | some s2 => exact absurd (Or.inl ⟨act, hi, by simp [hs]⟩) hn
+    · intro k' a w hon hp
+      exact hn (Or.inr ⟨k', a, w, hon, hp⟩)
+  have := (C07_quiescent_invocations c hc s hr hq k).1
+  omega
+
+/-- quiescence is inevitable after the last Send: along any Send-free run from a reachable state the number of
+    non-clock transitions (steps of clients inside Send, dispatchers, inner workers, timer firings AND handler returns)
+    is bounded by the finite quantity `work s` (24 per attempt not yet begun + the remaining stages of every dispatcher,
+    closure and timer). So under fair scheduling, once Sends stop and every started handler returns, after at most
+    `work s` transitions none is possible any more, and that state is `Quiescent` (by `C07_progress`: a non-quiescent
+    state has an enabled internal transition or a running handler) — where `C07_quiescent_invocations` applies. -/
+theorem C07_bounded_work (c : Cfg) (hc : c.old = false) (s : State) (hr : Reachable c s) (acts : List Act) (s2 : State)
+    (h : run c s acts = some s2) (hns : ∀ a, a ∈ acts → a.isSend = false) :
+    (acts.filter (fun a => !a.isClock)).length + work s2 ≤ work s :=
+  run_work hc (live_reachable hc hr) hns h
+
+/-- the quiescence theorems are never vacuous: EVERY reachable state can be continued, without any further Send, to a
+    quiescent one (let the pool's goroutines run and every running handler return; no time needs to pass); by
+    `C07_bounded_work` every such continuation is finite. -/
+theorem C07_quiescence_reachable (c : Cfg) (hc : c.old = false) (s : State) (hr : Reachable c s) :
+    ∃ acts s2, run c s acts = some s2 ∧ (∀ a, a ∈ acts → a.isSend = false) ∧ Quiescent c s2 :=
+  reaches_quiescent hc (work s) s (live_reachable hc hr) (Nat.le_refl _)
+
 /-! non-vacuity: a reachable finished task with two attempts (first timed out, second succeeded), and a discarded one -/
 def c07DemoActs : List Act :=
   [.send 0 { timeout := 1000, retry := 2, discard := true, hasCb := true }, .busyTest 0, .enq 0, .take 0,
@@ -133,6 +240,40 @@ def c07DemoActs : List Act :=
 example : ∃ s, Reachable { N := 1 } s ∧ (s.task 0).pc = .done ∧ (s.task 0).att = 2 ∧
     get2 (s.task 0) = some (8, .nil) ∧ (s.task 2).pc = .discarded ∧ (s.task 2).onErr = [(.discard, 0)] := by
   refine ⟨(run { N := 1 } init c07DemoActs).getD init, ⟨c07DemoActs, run_eq_some_getD (by decide)⟩, ?_, ?_, ?_, ?_, ?_⟩ <;> decide
+
+/-! non-vacuity of the quiescence theorems: the demo run continued until the pool has nothing left to do (task 1 is
+    picked up and finishes): a reachable quiescent state with a finished task that made a retry, inv = att = 2 ≤ R = 2;
+    and the demo state itself (task 1 still in taskChan) is reachable but not quiescent. -/
+def c07QuietActs : List Act :=
+  c07DemoActs ++
+  [.take 1, .loopTest 1, .sendCl 1, .wTake 1 0 0, .wStart 1 0 true, .hook3 1, .wEnd 1 0 5 .nil, .wCheck 1 0,
+   .hook1 1 0, .wCas 1 0, .hook4 1 0, .wWrite 1 0, .wClose 1 0, .selDone 1, .decide 1, .waitDone 1, .cancel 1,
+   .errTest 1, .wgDone 1]
+
+theorem C07_quiescent_witness :
+    ∃ s, Reachable { N := 1 } s ∧ Quiescent { N := 1 } s ∧ (s.task 0).pc = .done ∧ (s.task 0).R = 2 ∧
+      (s.task 0).inv = 2 ∧ (s.task 0).att = 2 ∧ (s.task 1).pc = .done ∧ (s.task 1).inv = 1 ∧
+      (s.task 2).pc = .discarded ∧ (s.task 2).inv = 0 := by
+  have hr : Reachable { N := 1 } ((run { N := 1 } init c07QuietActs).getD init) :=
+    ⟨c07QuietActs, run_eq_some_getD (by decide)⟩
+  refine ⟨_, hr, (C07_quiescent_decidable { N := 1 } rfl _ hr).mpr (by decide), ?_, ?_, ?_, ?_, ?_, ?_, ?_, ?_⟩ <;>
+    decide
+
+theorem C07_not_quiescent_witness :
+    ∃ s, Reachable { N := 1 } s ∧ ¬ Quiescent { N := 1 } s ∧ (s.task 0).pc = .done ∧ (s.task 1).pc = .queued := by
+  have hr : Reachable { N := 1 } ((run { N := 1 } init c07DemoActs).getD init) :=
+    ⟨c07DemoActs, run_eq_some_getD (by decide)⟩
+  refine ⟨_, hr, ?_, by decide, by decide⟩
+  intro hq
+  have := (C07_quiescent_decidable { N := 1 } rfl _ hr).mp hq
+  revert this
+  decide
+
+/-- non-vacuity of `C07_bounded_work`: right after `Send` with R = 2 the budget is 2·24 + 14 = 62; the run of task 0 in
+    the complete demo run ends with 24 left (the unused attempt budget of the discarded task 2) -/
+example : work ((run { N := 1 } init [.send 0 { timeout := 1000, retry := 2, discard := true, hasCb := true }]).getD init) = 62 ∧
+    work ((run { N := 1 } init c07QuietActs).getD init) = 24 := by
+  constructor <;> decide
 
 /-! ### the two defects of the code before the decided flag (`old = true`), kept as documentation -/
 
